@@ -70,7 +70,7 @@ Theorem merge_ooo_preserves_contents : forall O O' Upre Usuf k,
 Proof. intros O O' Upre Usuf k H. exact (merge_suffix_safe O O' Upre Usuf H k). Qed.
 Print Assumptions merge_ooo_preserves_contents.
 
-(* sensitivity: protocol orders a wrong edit would produce admit a crash prefix whose recovery shows neither the old
+(* sensitivity: protocol orders a wrong edit would produce allow a crash prefix whose recovery shows neither the old
    nor the new file set (documented mutants, not findings) *)
 Theorem order_matters_refuted_log_after_first_rename :
   exists st0 old new univ k, protocol_pre st0 old new univ /\
